@@ -1,6 +1,9 @@
 """Native replay for C16: user_state synchronisation for process workers (and setter guard)."""
 import json
+import multiprocessing as mp
+import os
 import sys
+import threading
 
 import replay_targets as T
 from pyworkers.process import ProcessWorker
@@ -10,6 +13,58 @@ from pyworkers.thread import ThreadWorker
 def main():
     viol = []
     obs = {}
+    sc = json.loads(sys.argv[1])
+    lemma = (sc.get('lemma') or '').split(' ')[0].split('.')[-1]
+
+    def watchdog():
+        print(json.dumps({'violates': True, 'violations': viol + ['watchdog: scenario did not finish within 150 s (hang)'], 'observed': obs, 'scenario': sc}, default=repr))
+        sys.stdout.flush()
+        for c in mp.active_children():
+            c.kill()
+        os._exit(0)
+    tm = threading.Timer(150, watchdog)
+    tm.daemon = True
+    tm.start()
+    if not lemma.endswith('r'):
+        process_part(viol, obs)
+    if not lemma or lemma.endswith('r'):
+        remote_part(viol, obs)
+    print(json.dumps({'violates': bool(viol), 'violations': viol, 'observed': obs, 'scenario': sc}, default=repr))
+
+
+def remote_part(viol, obs):
+    """the remote kind: whatever the child returns (also None / False) or raises, the state it assigned last is what the parent sees after the end, and the
+    next incarnation of a re-creation chain starts from it"""
+    from pyworkers.remote import RemoteWorker
+    from pyworkers.remote_server import spawn_server
+    server = spawn_server(('127.0.0.1', 0))
+    try:
+        for init, values in (('initial', [5, None]), (1, [2, 0]), (None, [3, ['a', 'b']]), ('same', ['x', 'same'])):
+            for then in ('return', 'return_none', 'return_false', 'raise', 'raise_unreceivable'):
+                w = RemoteWorker(T.set_states, args=(values, then), init_state=init, host=server.addr)
+                alive_state = w.user_state
+                if not w.wait(20):
+                    viol.append(f'remote/{init!r}->{values!r}/{then}: wait(20) returned False')
+                    w.terminate(timeout=1, force=True)
+                    continue
+                got = w.user_state
+                obs[f'remote/{init!r}->{values!r}/{then}'] = got
+                if got != values[-1] or type(got) is not type(values[-1]):
+                    viol.append(f"remote worker, init_state={init!r}, the child assigns {values!r} and ends by {then}: after the end user_state is {got!r}, "
+                                f"the child's last value was {values[-1]!r}")
+                try:
+                    w.user_state = 5
+                    viol.append('remote worker: assigning user_state from the parent did not raise')
+                except RuntimeError:
+                    pass
+    finally:
+        try:
+            server.terminate(timeout=2, force=True)
+        except Exception:     # noqa
+            pass
+
+
+def process_part(viol, obs):
     w = ProcessWorker(T.set_state_and_return, args=(41,), init_state='initial')
     obs['alive_state'] = w.user_state
     ok = w.wait(20)
@@ -30,14 +85,13 @@ def main():
         viol.append(f"worker that raised: user_state is {w2.user_state!r}, expected ('child', 7)")
     # the last value the child assigns is what the parent sees after the end, whatever it is: None, falsy values, a value equal to the initial one
     for init, values in (('initial', [5, None]), (1, [2, 0]), ([1], [[], '']), (None, [3, None]), ('same', ['x', 'same'])):
-        for then in ('return', 'raise'):
+        for then in ('return', 'return_none', 'raise', 'raise_unreceivable'):
             w3 = ProcessWorker(T.set_states, args=(values, then), init_state=init)
             w3.wait(20)
             got = w3.user_state
             obs[f'{init!r}->{values!r}/{then}'] = got
             if got != values[-1] or type(got) is not type(values[-1]):
                 viol.append(f"init_state={init!r}, the child assigns {values!r} and {then}s: after the end user_state is {got!r}, the child's last value was {values[-1]!r}")
-    print(json.dumps({'violates': bool(viol), 'violations': viol, 'observed': obs, 'scenario': json.loads(sys.argv[1])}, default=repr))
 
 
 if __name__ == '__main__':
